@@ -164,7 +164,19 @@ def rule_tabs_off(ctx):
                 "the test is guarded by %s" % cs)
         w = a.paths_avoiding(a.succ[b][0], lambda n: n["k"] == "call" and n.get("c") == "write_char" and expr_str(a, n["a"][0]) == "ch", lambda n: n["k"] == "ret", start_is_node=False)
         r.check(w is None, "add_char/tab-not-written", db.loc(a, a.blocks[b]["term"]["l"]), "the tab is still written after the expansion branch")
-    r.floor(5)
+    # comments are indented by cmt_output_indent(): its tab policy `iwt` is 0 under the same configuration (with
+    # indent_cmt_with_tabs at its default false; pp_indent_with_tabs = -1 means `as indent_with_tabs`, it must not count as `on`)
+    c = db.fn("cmt_output_indent", file=OUT)
+    envc = {"indent_with_tabs": {0}, "pp_indent_with_tabs": {-1, 0}, "indent_cmt_with_tabs": {0}}
+    rdc = ReachingDefs(c, db)
+    fc = Folder(c, rdc, envc)
+    iwt = [(n, v) for n in c.all_nodes() if n["k"] == "decl" for v in n["vars"] if v["n"] == "iwt" and v.get("init") is not None]
+    r.require(len(iwt) == 1, "cmt_output_indent: the tab policy variable `iwt` was not found")
+    val = fc.fold(iwt[0][1]["init"], iwt[0][0]["i"])
+    r.check(val is not None and set(val) == {0}, "cmt_output_indent/tab-policy-folds-to-0", db.loc(c, iwt[0][0]),
+            "with indent_with_tabs=0, indent_cmt_with_tabs=false and pp_indent_with_tabs in {-1,0} the comment indent policy `%s` folds to %s, not to 0: "
+            "comment lines are indented with tabs" % (expr_str(c, iwt[0][1]["init"])[:80], sorted(val) if val is not None else "unknown"))
+    r.floor(6)
 
 
 def rule_blank_buffer(ctx):
@@ -190,7 +202,20 @@ def rule_blank_buffer(ctx):
     buf = [n for n in a.all_nodes() if n["k"] == "un" and n["op"] == "++" and expr_str(a, n["a"][0]) == "cpd.spaces"]
     r.check(len(buf) == 1 and ("ch == ' ' && !cpd.output_trailspace", True) in _conds(a, buf[0]) or (len(buf) == 1 and ("ch == ' '", True) in _conds(a, buf[0])),
             "add_char/blank-is-buffered", db.loc(a, buf[0] if buf else a.l0), "a blank is no longer buffered in cpd.spaces")
-    r.floor(3)
+    # blank lines are padded to Chunk::GetNlColumn() when that is > 1: "unless blank-line indentation is explicitly requested"
+    # means that the column is set only under indent_single_newlines
+    setters = db.callers_of("Chunk::SetNlColumn")
+    r.require(len(setters) >= 1, "no caller of Chunk::SetNlColumn")
+    for f, n in setters:
+        r.seen()
+        cs = _conds(f, n)
+        r.check(("options::indent_single_newlines()", True) in cs, "%s/SetNlColumn-only-on-request" % f.qn.split("::")[-1], db.loc(f, n),
+                "the column to which blank lines are padded is set outside `options::indent_single_newlines()` (%s): blank lines come out with "
+                "trailing blanks although nobody asked for them" % cs[-3:])
+    raw = [(f, n) for f in db.funcs.values() if f.file.startswith("src/") for n in f.all_nodes()
+           if n["k"] in ("asg", "un") and n.get("a") and expr_str(f, n["a"][0]).endswith("m_nlColumn") and f.qn.split("::")[-1] not in ("SetNlColumn", "Chunk", "Reset", "CopyFrom", "operator=")]
+    r.check(not raw, "m_nlColumn/written-only-by-its-setter", db.loc(raw[0][0], raw[0][1]) if raw else "src/chunk.h:1", "m_nlColumn is also written in %s" % sorted(set(f.qn for f, n in raw)))
+    r.floor(5)
 
 
 def rule_eof(ctx):
